@@ -46,6 +46,22 @@ func (d *memDB) Set(k, v []byte) {
 }
 func (d *memDB) Del(k []byte) { d.mu.Lock(); delete(d.m, string(k)); d.mu.Unlock() }
 
+// dump returns the store contents sorted by key: (sub-tree root hash, encoded sub-tree) in hex
+func (d *memDB) dump() [][2]string {
+	d.mu.Lock()
+	defer d.mu.Unlock()
+	out := make([][2]string, 0, len(d.m))
+	for k, v := range d.m {
+		out = append(out, [2]string{hx2([]byte(k)), hx2(v)})
+	}
+	sort.Slice(out, func(i, j int) bool { return out[i][0] < out[j][0] })
+	return out
+}
+
+// maxDumpOps: histories with at most this many operations also record the node store after every Update (layered model tie)
+var maxDumpOps = 30
+var dumpsLeft = 1 << 30
+
 type wop [2]string // key hex, value hex ("" = delete)
 
 type rootRec struct {
@@ -63,6 +79,8 @@ type rootRec struct {
 	ProdRoots []string `json:"prodroots"`
 	ProdErr   string   `json:"proderr,omitempty"`
 	KL0       bool     `json:"kl0,omitempty"` // the trie is created / re-opened with keyLength 0 (= DefaultKeyLength 32)
+	// Stores: the map store's contents after every Update (small histories only): [sub-tree root hash, encoded sub-tree]
+	Stores [][][2]string `json:"stores,omitempty"`
 }
 
 type wq [3]string // key, value, bitmap
@@ -308,6 +326,14 @@ func runRootKL(kl, klArg int, gen string, batches [][]wop, reopen []bool, sh int
 	if sh != 0 {
 		t.SetSubtreeHeight(uint8(sh))
 	}
+	nops := 0
+	for _, b := range batches {
+		nops += len(b)
+	}
+	doDump := nops <= maxDumpOps && len(batches) > 0 && dumpsLeft > 0
+	if doDump {
+		dumpsLeft--
+	}
 	var root []byte
 	for i, b := range batches {
 		if reopen[i] {
@@ -327,6 +353,9 @@ func runRootKL(kl, klArg int, gen string, batches [][]wop, reopen []bool, sh int
 			return rec
 		}
 		rec.Roots = append(rec.Roots, hx2(root))
+		if doDump {
+			rec.Stores = append(rec.Stores, db.dump())
+		}
 	}
 	rec.ProdRoots, _, rec.ProdErr = prodRun(kl, klArg, sh, batches, reopen, nil)
 	if rec.ProdRoots == nil {
@@ -833,6 +862,8 @@ func main() {
 	nfull := flag.Int("nfull", 2, "full sub-tree cases (256 keys differing in one byte)")
 	fullkl := flag.Int("fullkl", 0, "key length of the full sub-tree cases (0 = alternate 32 and 4)")
 	flag.IntVar(&maxObs, "maxobs", 40, "max verification observations per proof case")
+	flag.IntVar(&maxDumpOps, "dumpops", 30, "record the node store after every Update for histories with at most this many operations")
+	ndump := flag.Int("ndump", 40, "number of generated histories with node-store dumps (replayed inputs always dump)")
 	flag.Parse()
 	r := hx.NewRng(hx.SeedFromEnv())
 	o := hx.NewOut(*out)
@@ -843,6 +874,7 @@ func main() {
 		replay(o, *in, r)
 		return
 	}
+	dumpsLeft = *ndump
 	modes := []string{"random", "clustered", "crossing", "prefix", "prefix"}
 	kls := []int{32, 32, 32, 1, 2, 4}
 	// empty trie, empty batch
